@@ -10,6 +10,7 @@ import (
 
 	"github.com/anishathalye/porcupine"
 	freflect "github.com/cloudwego/frugal/internal/reflect"
+	"github.com/cloudwego/frugal/internal/verifshim/vsync"
 	"github.com/cloudwego/frugal/zverif/bfs"
 	"github.com/cloudwego/frugal/zverif/explore"
 	"github.com/cloudwego/frugal/zverif/harness"
@@ -32,11 +33,29 @@ func e3Phases(id string) []*harness.Phase {
 		return []*harness.Phase{{Name: "component-unknown-index", NoShard: true, Custom: e3Unknown,
 			Rule: "explicit-state BFS over the real unknown-field index: Add of 5 ranges / Reset / Copy, depth 4 (thorough 5), against a byte-slice model"}}
 	case "C08":
-		return []*harness.Phase{{Name: "component-descmap-linearizability", Bound: 3, Gate: true,
-			Rule: "2-3 threads x <=2 Get/Set operations on three keys forced into one bucket of the real descriptor map, all interleavings with <=3 preemptions; each history checked for linearizability against a plain map (porcupine)",
+		return []*harness.Phase{{Name: "component-descmap-linearizability", Bound: 2, Gate: true,
+			Rule: "2-3 threads x <=2 Get/Set operations (writers serialised by a lock as the map's contract requires, readers lock-free) on three keys forced into one bucket of the real descriptor map, all interleavings with <=2 preemptions; each history checked for linearizability against a plain map (porcupine)",
 			Body: e3DescMap}}
 	}
 	return nil
+}
+
+// e3Replays: replay functions of the BFS phases, by phase name (used by --replay).
+var e3Replays = map[string]func(path []int) (string, string){
+	"component-allocator":     spanReplay,
+	"component-bitset":        bitsetReplay,
+	"component-unknown-index": unknownReplay,
+}
+
+func init() {
+	harness.CustomReplay = func(phase string, choices []int) (string, bool) {
+		f := e3Replays[phase]
+		if f == nil {
+			return "", false
+		}
+		_, v := f(choices)
+		return v, true
+	}
 }
 
 func e3Report(p *harness.PhaseCtx, prop, what string, r *bfs.Result, describe func([]int) interface{}) {
@@ -56,43 +75,44 @@ func e3Report(p *harness.PhaseCtx, prop, what string, r *bfs.Result, describe fu
 var spanSizes = []int{1, 2, 3, 7, 8, 9, 15, 16, 17, 255, 256, 257, 1024, 2040, 2041, 2047, 2048, 2049, 4096}
 var spanAligns = []int{1, 2, 4, 8}
 
+func spanReplay(path []int) (string, string) {
+	type blk struct{ lo, hi uintptr }
+	s := freflect.NewVerifSpan()
+	var handed []blk
+	_, base, _ := s.State()
+	for step, op := range path {
+		n, al := spanSizes[op/len(spanAligns)], spanAligns[op%len(spanAligns)]
+		ptr := uintptr(s.Malloc(n, al))
+		off, b, size := s.State()
+		if b != base {
+			base, handed = b, nil
+		}
+		if ptr%uintptr(al) != 0 {
+			return "", fmt.Sprintf("step %d: Malloc(%d, align %d) returned a misaligned address (mod %d = %d)", step, n, al, al, ptr%uintptr(al))
+		}
+		if ptr < b || ptr+uintptr(n) > b+uintptr(size) {
+			return "", fmt.Sprintf("step %d: Malloc(%d, align %d) returned memory outside the current block (block offset %d, block size %d)", step, n, al, int64(ptr)-int64(b), size)
+		}
+		for _, h := range handed {
+			if ptr < h.hi && h.lo < ptr+uintptr(n) {
+				return "", fmt.Sprintf("step %d: Malloc(%d, align %d) overlaps memory handed out earlier from the same block", step, n, al)
+			}
+		}
+		handed = append(handed, blk{ptr, ptr + uintptr(n)})
+		if off > size {
+			return "", fmt.Sprintf("step %d: offset %d beyond block size %d", step, off, size)
+		}
+	}
+	off, b, size := s.State()
+	return fmt.Sprintf("%d/%d/%d", off, size, b%16), ""
+}
+
 func e3Span(p *harness.PhaseCtx) {
 	depth := 4
 	if p.Tier == universe.Thorough {
 		depth = 6
 	}
-	type blk struct{ lo, hi uintptr }
-	replay := func(path []int) (string, string) {
-		s := freflect.NewVerifSpan()
-		var handed []blk
-		_, base, _ := s.State()
-		for step, op := range path {
-			n, al := spanSizes[op/len(spanAligns)], spanAligns[op%len(spanAligns)]
-			ptr := uintptr(s.Malloc(n, al))
-			off, b, size := s.State()
-			if b != base {
-				base, handed = b, nil
-			}
-			if ptr%uintptr(al) != 0 {
-				return "", fmt.Sprintf("step %d: Malloc(%d, align %d) returned a misaligned address (mod %d = %d)", step, n, al, al, ptr%uintptr(al))
-			}
-			if ptr < b || ptr+uintptr(n) > b+uintptr(size) {
-				return "", fmt.Sprintf("step %d: Malloc(%d, align %d) returned memory outside the current block (block offset %d, block size %d)", step, n, al, int64(ptr)-int64(b), size)
-			}
-			for _, h := range handed {
-				if ptr < h.hi && h.lo < ptr+uintptr(n) {
-					return "", fmt.Sprintf("step %d: Malloc(%d, align %d) overlaps memory handed out earlier from the same block", step, n, al)
-				}
-			}
-			handed = append(handed, blk{ptr, ptr + uintptr(n)})
-			if uintptr(off) > uintptr(size) {
-				return "", fmt.Sprintf("step %d: offset %d beyond block size %d", step, off, size)
-			}
-		}
-		off, _, size := s.State()
-		return fmt.Sprintf("%d/%d", off, size), ""
-	}
-	r := bfs.Run(bfs.Config{NumOps: len(spanSizes) * len(spanAligns), MaxDepth: depth, Replay: replay, Deadline: p.Deadline})
+	r := bfs.Run(bfs.Config{NumOps: len(spanSizes) * len(spanAligns), MaxDepth: depth, Replay: spanReplay, Deadline: p.Deadline})
 	e3Report(p, "C06", "bump allocator", r, func(path []int) interface{} {
 		var o []string
 		for _, op := range path {
@@ -106,39 +126,39 @@ func e3Span(p *harness.PhaseCtx) {
 
 var bitIDs = []uint16{0, 1, 62, 63, 64, 65, 127, 128, 4095, 4096, 65535}
 
-func e3Bitset(p *harness.PhaseCtx) {
-	replay := func(path []int) (string, string) {
-		var b freflect.VerifBitset
-		model := map[uint16]bool{}
-		for step, op := range path {
-			id := bitIDs[op%len(bitIDs)]
-			switch op / len(bitIDs) {
-			case 0:
-				b.Set(id)
-				model[id] = true
-			case 1:
-				b.Unset(id)
-				delete(model, id)
-			case 2:
-				if b.Test(id) != model[id] {
-					return "", fmt.Sprintf("step %d: test(%d)=%v, the model says %v", step, id, b.Test(id), model[id])
-				}
-			}
-			// every observed id must agree after every step
-			for _, x := range bitIDs {
-				if b.Test(x) != model[x] {
-					return "", fmt.Sprintf("step %d: after the operation, test(%d)=%v, the model says %v", step, x, b.Test(x), model[x])
-				}
+func bitsetReplay(path []int) (string, string) {
+	var b freflect.VerifBitset
+	model := map[uint16]bool{}
+	for step, op := range path {
+		id := bitIDs[op%len(bitIDs)]
+		switch op / len(bitIDs) {
+		case 0:
+			b.Set(id)
+			model[id] = true
+		case 1:
+			b.Unset(id)
+			delete(model, id)
+		case 2:
+			if b.Test(id) != model[id] {
+				return "", fmt.Sprintf("step %d: test(%d)=%v, the model says %v", step, id, b.Test(id), model[id])
 			}
 		}
-		var ks []int
-		for k := range model {
-			ks = append(ks, int(k))
+		for _, x := range bitIDs { // every observed id must agree after every step
+			if b.Test(x) != model[x] {
+				return "", fmt.Sprintf("step %d: after the operation, test(%d)=%v, the model says %v", step, x, b.Test(x), model[x])
+			}
 		}
-		sort.Ints(ks)
-		return fmt.Sprint(ks), ""
 	}
-	r := bfs.Run(bfs.Config{NumOps: 3 * len(bitIDs), MaxDepth: 12, Replay: replay, Deadline: p.Deadline})
+	var ks []int
+	for k := range model {
+		ks = append(ks, int(k))
+	}
+	sort.Ints(ks)
+	return fmt.Sprint(ks), ""
+}
+
+func e3Bitset(p *harness.PhaseCtx) {
+	r := bfs.Run(bfs.Config{NumOps: 3 * len(bitIDs), MaxDepth: 12, Replay: bitsetReplay, Deadline: p.Deadline})
 	e3Report(p, "C09", "presence bitset", r, func(path []int) interface{} {
 		var o []string
 		for _, op := range path {
@@ -152,47 +172,53 @@ func e3Bitset(p *harness.PhaseCtx) {
 
 var ufRanges = [][2]int{{0, 4}, {4, 7}, {11, 1}, {3, 20}, {30, 10}}
 
+var ufSrc = func() []byte {
+	src := make([]byte, 64)
+	for i := range src {
+		src[i] = byte(i*7 + 1)
+	}
+	return src
+}()
+
+func unknownReplay(path []int) (string, string) {
+	src := ufSrc
+	var u freflect.VerifUnknown
+	u.Reset()
+	var model [][2]int
+	for step, op := range path {
+		switch {
+		case op < len(ufRanges):
+			u.Add(ufRanges[op][0], ufRanges[op][1])
+			model = append(model, ufRanges[op])
+		case op == len(ufRanges):
+			u.Reset()
+			model = nil
+		default:
+			var want []byte
+			for _, r := range model {
+				want = append(want, src[r[0]:r[0]+r[1]]...)
+			}
+			if u.Size() != len(want) {
+				return "", fmt.Sprintf("step %d: Size()=%d, the model says %d", step, u.Size(), len(want))
+			}
+			got := u.Copy(src)
+			if !bytes.Equal(got, want) {
+				return "", fmt.Sprintf("step %d: Copy() = %x, the model says %x", step, got, want)
+			}
+			if len(got) > 0 && uintptr(unsafe.Pointer(&got[0])) >= uintptr(unsafe.Pointer(&src[0])) && uintptr(unsafe.Pointer(&got[0])) < uintptr(unsafe.Pointer(&src[0]))+64 {
+				return "", fmt.Sprintf("step %d: Copy() aliases the source buffer", step)
+			}
+		}
+	}
+	return fmt.Sprint(model), ""
+}
+
 func e3Unknown(p *harness.PhaseCtx) {
 	depth := 4
 	if p.Tier == universe.Thorough {
 		depth = 5
 	}
-	src := make([]byte, 64)
-	for i := range src {
-		src[i] = byte(i*7 + 1)
-	}
-	replay := func(path []int) (string, string) {
-		var u freflect.VerifUnknown
-		u.Reset()
-		var model [][2]int
-		for step, op := range path {
-			switch {
-			case op < len(ufRanges):
-				u.Add(ufRanges[op][0], ufRanges[op][1])
-				model = append(model, ufRanges[op])
-			case op == len(ufRanges):
-				u.Reset()
-				model = nil
-			default:
-				var want []byte
-				for _, r := range model {
-					want = append(want, src[r[0]:r[0]+r[1]]...)
-				}
-				if u.Size() != len(want) {
-					return "", fmt.Sprintf("step %d: Size()=%d, the model says %d", step, u.Size(), len(want))
-				}
-				got := u.Copy(src)
-				if !bytes.Equal(got, want) {
-					return "", fmt.Sprintf("step %d: Copy() = %x, the model says %x", step, got, want)
-				}
-				if len(got) > 0 && uintptr(unsafe.Pointer(&got[0])) >= uintptr(unsafe.Pointer(&src[0])) && uintptr(unsafe.Pointer(&got[0])) < uintptr(unsafe.Pointer(&src[0]))+64 {
-					return "", fmt.Sprintf("step %d: Copy() aliases the source buffer", step)
-				}
-			}
-		}
-		return fmt.Sprint(model), ""
-	}
-	r := bfs.Run(bfs.Config{NumOps: len(ufRanges) + 2, MaxDepth: depth, Replay: replay, Deadline: p.Deadline})
+	r := bfs.Run(bfs.Config{NumOps: len(ufRanges) + 2, MaxDepth: depth, Replay: unknownReplay, Deadline: p.Deadline})
 	e3Report(p, "C11", "unknown-field index", r, func(path []int) interface{} {
 		var o []string
 		for _, op := range path {
@@ -233,7 +259,7 @@ var dmModel = porcupine.Model{
 
 func e3DescMap(c *explore.C) {
 	nthreads := 2 + c.Choose(2, explore.Data, "threads")
-	// per thread: 1-2 operations, each Get(key) or Set(key, token); tokens are distinct per Set
+	// per thread: 1-2 operations (three threads: one each), each Get(key) or Set(key, token); tokens are distinct per Set
 	type opSpec struct {
 		set bool
 		key int
@@ -256,6 +282,7 @@ func e3DescMap(c *explore.C) {
 	m := freflect.NewVerifDescMap(16)
 	keys := []uintptr{0x1230, 0x1230 + (freflect.VerifDescMapBuckets + 1), 0x1230 + 2*(freflect.VerifDescMapBuckets+1)} // one bucket
 	var clock int64
+	var wmu vsync.Mutex
 	var history []porcupine.Operation
 	bodies := make([]func(), nthreads)
 	tok := 0
@@ -273,7 +300,10 @@ func e3DescMap(c *explore.C) {
 				in := dmInput{set: op.set, key: op.key, tok: toks[i]}
 				out := 0
 				if op.set {
+					// the map's contract: writers are serialised by the caller (frugal holds its registration lock), readers are lock-free
+					wmu.Lock()
 					m.Set(keys[op.key], toks[i])
+					wmu.Unlock()
 				} else {
 					out = m.Get(keys[op.key])
 				}
